@@ -36,14 +36,15 @@ def jobs(tier, seed, pool):
         for raw in (True, False):
             add({'sample': n}, raw, big=True)
     # edited samples
-    nedit = 500 if tier == 'quick' else 8000
+    nedit = 1500 if tier == 'quick' else 10000
     for i in range(nedit):
         r = Rng(seed, PROP, 'edit', i)
         n = r.choice(sample_list)
-        es = [edits.edit_step(r, tier) for _ in range(r.range(1, 6))]
+        sw = edits.swarm_subset(r)
+        es = [edits.edit_step(r, tier, allow=sw) for _ in range(r.range(1, 6))]
         add({'sample': n}, r.chance(0.5), es, kind='edited', big=True)
     # fault configuration on samples and builders
-    nfault = 500 if tier == 'quick' else 8000
+    nfault = 1500 if tier == 'quick' else 10000
     small = [n for n, sz in inputs.sample_names('in') if sz < 70000]
     for i in range(nfault):
         r = Rng(seed, PROP, 'fault', i)
